@@ -17,6 +17,7 @@ import sys
 
 from vlib import core, corr
 
+GENERATORS = ["c13_consts"]
 DEPENDS = ["Builder", "Amplification", "BuilderProofs", "AmplificationProofs", "C13Consts", "Base", "Tok", "C13"]
 TRUSTED_BASE = [
     "extraction (ExtrOcamlBasic only; Z kept as the extracted inductive) + coq/extract/driver.ml for running the models",
@@ -29,15 +30,16 @@ TRUSTED_BASE = [
     "Initial keys of the library itself are used to recognise Initial packets)",
 ]
 ASSUMPTIONS = [
-    "total_le_budget / amplification_bound assume the caller discipline of connection.py's frame writers (frames and pushes "
-    "only inside an open packet, declared capacity >= frame type size, each push <= remaining_buffer_space); "
-    "_write_ack_frame is known not to guarantee it for very large ACK frames (F11)",
+    "total_le_budget / amplification_bound assume the caller discipline of connection.py's frame writers (frames only inside "
+    "an open packet, declared capacity >= frame type size, bytes pushed only into the buffer handed out by start_frame, i.e. "
+    "after a frame was started in the open packet, each push <= remaining_buffer_space)",
     "amplification_bound is about send rounds taken through the budgeted branch of datagrams_to_send; the _close_pending "
     "branch sets no budget (modelled as AClose, excluded by hypothesis)",
     "received datagram lengths are non-negative",
 ]
 
 GRID = [1200, 1201, 1280, 1452, 1500, 2000, 9000]
+CRYPTO_MAX = 1500   # PACKET_LENGTH_MAX of src/aioquic/_crypto.c: above it AEAD.encrypt / HeaderProtection.apply raise CryptoError
 PT = {"INITIAL": 0, "ZERO_RTT": 1, "HANDSHAKE": 2, "ONE_RTT": 5}
 
 
@@ -56,7 +58,7 @@ _CRYPTO = {}
 
 
 def _crypto(mds):
-    if mds > 1500:
+    if mds > CRYPTO_MAX:
         return StubCrypto()
     if "real" not in _CRYPTO:
         from aioquic.quic.crypto import CryptoPair
@@ -91,6 +93,8 @@ def b_encode(case):
     t = [int(c["client"]), c["mds"], c["peer"], c["host"], c["token"]]
     for k in ("mf", "mt"):
         t += [0] if c[k] is None else [1, c[k]]
+    # the CryptoPair handed to the builder (see _crypto): aioquic's own (1500-byte limit of _crypto.c) or the size-only stub
+    t += [0] if c["mds"] > CRYPTO_MAX else [1, CRYPTO_MAX]
     t += [c.get("pn", 0)]
     for op in case["ops"]:
         k = op[0]
@@ -143,6 +147,7 @@ def _has_init(pkts, is_client):
 
 def _b_apply(b, crypto, op):
     """One op on the real builder -> (outcome code, flush result or None)."""
+    from aioquic._crypto import CryptoError
     from aioquic.buffer import BufferWriteError
     from aioquic.quic.packet_builder import QuicPacketBuilderStop
     res = None
@@ -165,6 +170,8 @@ def _b_apply(b, crypto, op):
         code = 3
     except AttributeError:
         code = 4
+    except CryptoError:     # a ValueError subclass: encrypt_packet refused the packet (larger than _crypto.c's buffers)
+        code = 6
     except ValueError:
         code = 5
     return code, res
@@ -213,18 +220,21 @@ def _uvar_size(v):
 def b_oracle(case):
     """The builder-level contract coded directly on the real builder's public behaviour:
        (1) every datagram <= max_datagram_size;
-       (2) caller-disciplined histories: sum of datagram bytes <= max_total_bytes (+1 only when a packet with a
-           one-byte payload was completed: the header-protection sample padding);
+       (2) caller-disciplined histories: sum of datagram bytes <= max_total_bytes, exactly (no "+1": since fix e93c691
+           start_frame reserves room for the header-protection sample padding of a one-byte packet);
        (3) a datagram containing a client Initial / ack-eliciting server Initial is at least as long as the
            capacity the budgets leave: min(max_datagram_size, max_total_bytes - bytes so far, max_flight_bytes -
-           flight bytes so far) -- hence >= 1200 whenever that capacity is."""
+           flight bytes so far) -- hence >= 1200 whenever that capacity is.
+       Discipline = what connection.py's frame writers do: start_frame only inside an open packet with capacity >= the
+       size of the frame type; bytes pushed only after a frame was started in the open packet (the packet is not empty),
+       never more than remaining_buffer_space."""
     cfg = case["cfg"]
     b = _mk_builder(cfg)
     crypto = _crypto(cfg["mds"])
     mds, mt, mf = cfg["mds"], cfg["mt"], cfg["mf"]
     total = flight = 0
-    disciplined, sample = True, False
-    in_packet, payload = False, 0
+    disciplined = True
+    in_packet = False
     errors = False
     for i, op in enumerate(case["ops"]):
         k = op[0]
@@ -234,19 +244,17 @@ def b_oracle(case):
             if not in_packet or sz is None or sz > op[2]:
                 disciplined = False
         elif k == "push":
-            if not in_packet or op[1] < 0 or op[1] > b.remaining_buffer_space:
+            try:
+                ok = in_packet and not b.packet_is_empty and 0 <= op[1] <= b.remaining_buffer_space
+            except (AssertionError, AttributeError):
+                ok = False
+            if not ok:
                 disciplined = False
-        elif k in ("sp", "flush") and in_packet and payload == 1:
-            sample = True
-        t0 = b._buffer.tell()
         code, res = _b_apply(b, crypto, op)
         if code not in (0, 1):
             errors = True
         if k == "sp":
             in_packet = code == 0
-            payload = 0
-        elif k in ("sf", "push") and code == 0 and in_packet:
-            payload += b._buffer.tell() - t0
         elif k == "flush":
             in_packet = False
         if k == "flush" and res is not None:
@@ -268,7 +276,7 @@ def b_oracle(case):
                 pk = sum(p.sent_bytes for p in g)
                 flight += sum(p.sent_bytes for p in g if p.in_flight) + (n - pk)
                 total += n
-            if disciplined and not errors and mt is not None and total > max(0, mt + (1 if sample else 0)):
+            if disciplined and mt is not None and total > max(0, mt):
                 return ("disciplined history sent %d bytes with max_total_bytes=%d (op %d)" % (total, mt, i),
                         {"level": "builder", "rule": "total_le_budget", "overshoot": total - mt})
     return None
@@ -345,6 +353,13 @@ def b_gen(rng, n, small=False):
                 if not wild:
                     pick = max(0, min(pick, space))
                 op = ["push", pick]
+                try:
+                    empty = b.packet_is_empty
+                except AssertionError:
+                    empty = True
+                if not wild and empty:
+                    # connection.py writes bytes only into the buffer handed out by start_frame
+                    op = ["sf", rng.choice(FRAME_TYPES), rng.choice([1, 1, 2, 3, 8, max(1, space), max(1, space - 1)])]
             else:
                 op = ["flush"]
             code, _ = _b_apply(b, crypto, op)
@@ -370,6 +385,24 @@ def b_boundary():
                 cases.append({"cfg": dict(base, mt=mt), "ops": [["sp", t], ["sf", ft, 1], ["flush"]]})
                 cases.append({"cfg": dict(base, mt=mt), "ops": [["sp", t], ["sf", ft, 1], ["push", 1], ["flush"]]})
                 cases.append({"cfg": dict(base, mf=mt), "ops": [["sp", t], ["sf", ft, 1], ["flush"]]})
+    # the reservation of fix e93c691 (first frame of an empty packet reserves 2 bytes): budgets around header + 1..3 + tag,
+    # declared capacities around the reserve, one- and two-byte frame types, second frames, a frame refused then a
+    # smaller packet, bytes pushed with no frame started (undisciplined: the only way left to exceed the budget)
+    for t, hdr in ((5, 11), (2, 27), (0, 28)):
+        for k in ("mt", "mf"):
+            for v in range(hdr + 15, hdr + 22):
+                cfg = dict(base, **{k: v})
+                for ft, cap in ((1, 1), (1, 2), (1, 3), (2, 1), (0x1E, 1), (64, 2), (64, 1), (20000, 4)):
+                    cases.append({"cfg": cfg, "ops": [["sp", t], ["sf", ft, cap], ["flush"]]})
+                    cases.append({"cfg": cfg, "ops": [["sp", t], ["sf", ft, cap], ["sf", 1, 1], ["flush"]]})
+                    cases.append({"cfg": cfg, "ops": [["sp", t], ["sf", ft, cap], ["push", 0], ["sp", t], ["sf", 1, 1], ["flush"]]})
+                cases.append({"cfg": cfg, "ops": [["sp", t], ["push", 1], ["flush"]]})
+                cases.append({"cfg": cfg, "ops": [["sp", t], ["push", 0], ["sf", 1, 1], ["flush"]]})
+                cases.append({"cfg": cfg, "ops": [["sp", t], ["sf", 1, 1], ["flush"], ["sf", 1, 1], ["flush"]]})
+    for ops in ([["sf", 1, 1]], [["sf", 28, 64]], [["flush"], ["sf", 1, 1]], [["sp", 5], ["flush"], ["sf", 1, 1], ["push", 1], ["flush"]],
+                [["sp", 7], ["sf", 1, 1]], [["push", 3], ["sf", 6, 1], ["flush"]]):
+        for mt in (None, 10, 500):
+            cases.append({"cfg": dict(base, mt=mt), "ops": ops})   # start_frame with no packet: AssertionError, nothing changes
     for client in (0, 1):
         for mf in (None, -5, 0, 30, 60, 500, 1199, 1200, 1201, 5000):
             for mt in (None, 0, 40, 300, 1199, 1200, 1201, 2400, 2500, 3600):
@@ -1053,14 +1086,38 @@ def report_conn(ctx, found, seen):
                       extra={"trace": trace})
 
 
+def _oracle_only(ctx, bs, cases):
+    """Search for a failing input with the implementation oracle alone (used when the extracted model is missing)."""
+    reported = 0
+    for c in cases:
+        bs.stats["cases"] += 1
+        try:
+            bad = b_oracle(c)
+        except Exception as e:
+            bad = ("oracle raised %r" % (e,), {"oracle_exception": type(e).__name__})
+        if bad:
+            bs.stats["oracle_failures"] += 1
+            if reported < 3:
+                reported += 1
+                ctx.violation("impl-violation", "builder: %s" % bad[0], c, signature=bad[1])
+
+
 def run(ctx):
     rng = ctx.rng
     # ---- builder model <-> QuicPacketBuilder
     bs = builder_suite(ctx)
-    bs.run(corr.load_corpus("C13", "builder"), "corpus")
-    bs.run(b_boundary())
-    bs.run(b_gen(rng, ctx.n(2500, 30000)))
-    bs.run(b_gen(rng, ctx.n(800, 8000), small=True))
+    batches = [(corr.load_corpus("C13", "builder"), "corpus"), (b_boundary(), ""), (b_gen(rng, ctx.n(2500, 30000)), ""),
+               (b_gen(rng, ctx.n(800, 8000), small=True), "")]
+    model_ok = True
+    for cases, label in batches:
+        if model_ok:
+            try:
+                bs.run(cases, label)
+                continue
+            except core.BuildError as e:   # the model no longer builds against this tree: the oracle still runs
+                model_ok = False
+                core.log("C13 builder model not runnable (%s): implementation oracle only" % (str(e)[:200],))
+        _oracle_only(ctx, bs, cases)
     # ---- connection-level oracle (always runs, also when the proofs do not build)
     agg, ledgers, seen = {}, [], set()
     found = run_conn(ctx, corr.load_corpus("C13", "conn"), agg, ledgers)
